@@ -110,6 +110,39 @@ class ProgGen(object):
             d[dst] = self.val(dst.size, r.choice([0, 1, 2, 2, 3]))
         return d
 
+    def copy_program(self):
+        """memcpy-like: adjacent copies between two bases, then reads that straddle the copied cells"""
+        from miasm.ir.ir import IRBlock, AssignBlock
+        m, r = self.m, self.rng
+        p, q = r.sample(PTRS, 2)
+        P, Q = self.reg[p], self.reg[q]
+        sz = r.choice([1, 2, 4])
+        n = r.choice([2, 3])
+        base_p, base_q = r.choice([0, 4, 0xfffffffc]), r.choice([0, 8, 0xfffffff8, 1])
+        abs_ = []
+        order = list(range(n))
+        if r.random() < 0.3:
+            order.reverse()
+        for k in order:
+            dst = m.ExprMem(P + m.ExprInt((base_p + k * sz) & 0xffffffff, 32), 8 * sz)
+            src = m.ExprMem(Q + m.ExprInt((base_q + k * sz) & 0xffffffff, 32), 8 * sz)
+            abs_.append({dst: src})
+        reads = {}
+        for reg in r.sample(DATA, 3):
+            w = r.choice([8, 16, 32])
+            off = (base_p + r.randrange(0, n * sz)) & 0xffffffff
+            v = m.ExprMem(P + m.ExprInt(off, 32), w)
+            reads[self.reg[reg]] = v.zeroExtend(32) if w < 32 else v
+        abs_.append(reads)
+        locs = [self.loc_db.add_location() for _ in range(3)]
+        last = dict(abs_[-1])
+        last[self.lifter.IRDst] = m.ExprLoc(locs[1], 32)
+        abs_[-1] = last
+        ircfg = self.lifter.new_ircfg()
+        b = IRBlock(self.loc_db, locs[0], [AssignBlock(a) for a in abs_])
+        ircfg.add_irblock(b)
+        return ircfg, [b], locs
+
     def program(self, nblocks):
         from miasm.ir.ir import IRBlock, AssignBlock
         m, r = self.m, self.rng
@@ -203,7 +236,10 @@ def run(ctx):
         loc_db = LocationDB()
         lifter = machine.lifter_model_call(loc_db)
         g = ProgGen(rng, lifter, loc_db)
-        ircfg, blocks, locs = g.program(rng.choice([1, 1, 2, 3, 4]))
+        if rng.random() < 0.2:
+            ircfg, blocks, locs = g.copy_program()
+        else:
+            ircfg, blocks, locs = g.program(rng.choice([1, 1, 2, 3, 4]))
         eng = SymbolicExecutionEngine(lifter)
         rec = Recorder(eng)
         executed = []
